@@ -148,9 +148,15 @@ pub fn gen_scenario(src: &mut Src, allow_mixed: bool) -> Scenario {
             let mut children = vec![];
             if k.is_vec() {
                 let mut nch = src.below(7);
+                let mut bulk = 0usize;
                 if nch == 6 && src.chance(48) {
                     // occasionally many children (more than the 20 elements up to which slices are insertion-sorted)
                     nch += src.below(60);
+                    if src.chance(64) {
+                        // rarely: hundreds to thousands (label values are scrambled numbers, so collection order, hash
+                        // order and sorted order all differ)
+                        bulk = 300 + src.below(1500);
+                    }
                 }
                 let mut seen: Vec<Vec<String>> = vec![];
                 for _ in 0..nch {
@@ -161,6 +167,17 @@ pub fn gen_scenario(src: &mut Src, allow_mixed: bool) -> Scenario {
                     seen.push(t.clone());
                     seed += 1;
                     children.push((t, seed));
+                }
+                if bulk > 0 {
+                    let have: std::collections::HashSet<Vec<String>> = seen.iter().cloned().collect();
+                    for k in 0..bulk {
+                        let t: Vec<String> = (0..vnames.len()).map(|j| format!("{}", (k * 7919 + j * 31 + 13) % 10007)).collect();
+                        if have.contains(&t) {
+                            continue;
+                        }
+                        seed += 1;
+                        children.push((t, seed));
+                    }
                 }
             } else {
                 seed += 1;
